@@ -195,29 +195,69 @@ class TupSeqV:
 
 
 class RowsV:
-    """list of symbolic length whose elements are tuples of ints of a fixed arity (struct of arrays: one IntSeq term
-    per column, all of one length).  Models a plan such as [(out_len, offset, b, e), ...]."""
-    __slots__ = ("comps", "kind")
+    """list of symbolic length whose elements are tuples of a fixed arity (struct of arrays: IntSeq terms of one length).
+    A logical column is an int (one term), an optional int (`None` flag as 0/1 plus the value) or a unit-step range
+    (lower and upper bound).  Models a plan such as [(out_len, offset, b, e), ...] or
+    [(start, size, offset, g_or_None, h_or_None, range(lo, hi)), ...]."""
+    __slots__ = ("comps", "kind", "kinds")
+    WIDTH = {"int": 1, "optint": 2, "range": 2}
 
-    def __init__(self, comps, kind="list"):
+    def __init__(self, comps, kind="list", kinds=None):
         self.comps, self.kind = list(comps), kind
+        self.kinds = list(kinds) if kinds is not None else ["int"] * len(self.comps)
 
     @property
     def n(self):
         return f_len(self.comps[0])
 
+    def _logical(self, cells):
+        out, k = [], 0
+        for kd in self.kinds:
+            if kd == "int":
+                out.append(Opt(False, cells[k]))
+            elif kd == "optint":
+                out.append(Opt(cells[k] == 1, cells[k + 1]))
+            else:
+                out.append(("range", cells[k], cells[k + 1], z3.IntVal(1)))
+            k += RowsV.WIDTH[kd]
+        return out
+
     def get(self, t):
-        return TupV([Opt(False, f_at(c, _i(t))) for c in self.comps], "tuple")
+        return TupV(self._logical([f_at(c, _i(t)) for c in self.comps]), "tuple")
+
+    def cells_of(self, items):
+        """flatten one tuple of logical values into cell terms (None if it does not fit the column kinds)"""
+        if len(items) != len(self.kinds):
+            return None
+        out = []
+        for kd, x in zip(self.kinds, items):
+            if kd == "int":
+                if not isinstance(x, (Opt, BoolV)) or (isinstance(x, Opt) and not x.definite()):
+                    return None
+                out.append(as_int(x))
+            elif kd == "optint":
+                if not isinstance(x, Opt):
+                    return None
+                out += [z3.If(_b(x.n), 1, 0), _i(x.v)]
+            else:
+                if not (isinstance(x, tuple) and x and x[0] == "range"):
+                    return None
+                st = z3.simplify(_i(x[3]))
+                if not (z3.is_int_value(st) and st.as_long() == 1):
+                    return None
+                out += [_i(x[1]), _i(x[2])]
+        return out
 
     def col(self, k):
         return SeqV(self.comps[k], "tuple")
 
     @staticmethod
-    def empty(arity, kind="list"):
-        return RowsV([c_empty for _ in range(arity)], kind)
+    def empty(arity, kind="list", kinds=None):
+        kinds = list(kinds) if kinds is not None else ["int"] * arity
+        return RowsV([c_empty for kd in kinds for _ in range(RowsV.WIDTH[kd])], kind, kinds)
 
     def __repr__(self):
-        return f"RowsV(arity={len(self.comps)})"
+        return f"RowsV({','.join(self.kinds)})"
 
 
 class SortedItemsV:
@@ -768,7 +808,16 @@ def elem(t, i):
     if isinstance(t, (SliceSeqV, TupSeqV)):
         return t.get(_i(i))
     if isinstance(t, RowsV):
-        return tuple(f_at(c, _i(i)) for c in t.comps)
+        # logical values of row i: ints as terms, optional ints as Opt, ranges as (lo, hi)
+        out = []
+        for v in t.get(i).items:
+            if isinstance(v, Opt) and v.definite():
+                out.append(_i(v.v))
+            elif isinstance(v, tuple):
+                out.append((v[1], v[2]))
+            else:
+                out.append(v)
+        return tuple(out)
     if isinstance(t, TupV):
         return t.items[i]
     return t[i]
@@ -858,7 +907,7 @@ def _guess_patterns(b, j):
         if h not in heads:
             heads.add(h)
             out.append(e)
-    return out[:4]
+    return out[:12]
 
 
 def chunking(t, n=None):
